@@ -52,3 +52,7 @@ Fixpoint so_rep (n : nat) (i : Z) (c : list call) (r : opres) (t : list nat) : l
 
 Definition agrees (cfg : config) (h : list (op * Z)) (expected : list sobs) : bool :=
   list_eqb sobs_eqb (sparse (run cfg tl0 (expand h))) expected.
+
+(* did the model run out of fuel somewhere in this history?  (then it does not describe the run: the case is discarded) *)
+Definition out_of_fuel (cfg : config) (h : list (op * Z)) : bool :=
+  existsb (fun o => opres_eqb (snd (fst o)) ROutOfFuel) (run cfg tl0 (expand h)).
